@@ -76,6 +76,23 @@ PROPS = {
           '(GOMAXPROCS varied per child); Repartition rows sit in the shard the function returned; aggregations emit each key once. '
           'Non-trivial: >=2 producers and >=2 output shards received rows.',
           nbatch=(8, 16), vary_gomaxprocs=True, must_observe=['keys_checked', 'runs_on_bigmachine', 'cross_process_values_compared']),
+ 'C04': P('exploration',
+          'cases = (program spec, list of execution configurations). Every program of the generator (user functions take a context and increment '
+          'registered counters) runs under local p=4, a 2-proc testsystem, and 4 (quick) / 14 (thorough) further configurations drawn from '
+          '{local p in 1,4,16; testsystem machine procs 1,2,4 x parallelism x max-load 0.3/0.95; machine combiners on/off; DoShuffleReaders on/off; '
+          'chunk rows 1,2,4,8,128; sort canary 1,2,256; SpillBatchSize 1,3,128; Procs/Exclusive/Materialize pragmas at seed-chosen operators}. '
+          'Oracle: canonicalised rows equal between all configurations and equal to the reference evaluator; counter vectors of result.Scope() '
+          'equal between configurations and equal to the increments counted by the recorder (programs with Head excluded). '
+          'Non-trivial: the program ran under both executor kinds.',
+          nbatch=(8, 16), timeout=(900, 3400), vary_gomaxprocs=True,
+          must_observe=['configuration_pairs_compared', 'counter_vectors_compared', 'runs_with_nonzero_counters']),
+ 'C20': P('exploration',
+          '(a) law cases = (number of scopes, operation sequence over incr / concurrent incr from 4 goroutines / merge / reset / reset(nil) / gob round '
+          'trip / read) checked after every step against a per-scope counter array model, 8 registered counters; (b) end-to-end cases = generated '
+          'programs whose user functions increment counters, run on local and testsystem executors: Counter.Value(result.Scope()) must equal the '
+          'increments counted independently by the recorder. Non-trivial: laws with >=1 merge/reset/gob combining two scopes; e2e run on both executors.',
+          variants={'quick': ['plain'], 'thorough': ['plain', 'race']}, nbatch=(8, 16),
+          must_observe=['law_op_merge', 'law_op_gob', 'law_op_reset', 'runs_with_nonzero_counters', 'increments_checked']),
 }
 
 META = {
@@ -126,4 +143,13 @@ META = {
          'checked for functional dependence on (key, shard count) within a run, across runs and across OS processes.',
     note='Key equality is Go == on the key columns (+0 == -0, bytes.Equal for []byte). NaN keys are excluded by the property.',
     technique='runtime monitoring of shard placement with cross-run and cross-process consistency oracles'),
+ 'C04': dict(
+    text='Exploration: differential execution of the same program under many execution strategies, with the reference evaluator as a third opinion.',
+    note='Size parameters copied at package init (root package, sliceio, sortio vector size) cannot be varied; chunk rows only powers of two '
+         '(documented precondition of the combining hash table); counters are not compared when a Head is present.',
+    technique='differential runtime monitoring across execution configurations'),
+ 'C20': dict(
+    text='Exploration: algebraic laws of Scope/Counter checked step by step against a model, plus end-to-end totals on both executors; thorough adds the race detector for concurrent increments.',
+    note='Counters are registered at package init in a fixed order. Failure-free runs only.',
+    technique='model-based law checking + end-to-end conservation check (increments performed == increments reported)'),
 }
